@@ -174,7 +174,7 @@ def run(check):
     # one-of members whose option names contain dots, dashes, spaces or look like paths (the option's name is also part of the
     # name of a node of the dependency graph); only one alternative is ever produced, so the result is fixed
     from ..model import OneOf
-    for j, (na, nb) in enumerate([("v1.0", "v2.0"), ("a.b.c", "a.b"), ("x", "x.y"), ("opt-1", "opt 2"), ("0", "1.0"), ("outputs.success", "steps.A"), ("A", "a")] * check.pick(1, 3)):
+    for j, (na, nb) in enumerate([("v1.0", "v2.0"), ("a.b.c", "a.b"), ("x", "x.y"), ("opt-1", "opt 2"), ("0", "1.0"), ("x.b", "b"), ("b", "x.b"), ("a.b", "c.b"), ("outputs.success", "steps.A"), ("A", "a")] * check.pick(1, 3)):
         rng = random.Random(derive_seed(check.seed, "c03-optnames", j))
         A, B = gen.plugin_step("A", Expr(In("tag"))), gen.plugin_step("B", Expr(In("tag")))
         first = j % 2 == 0
